@@ -190,3 +190,15 @@ Definition wf_C13 (togc process : list sev) : bool :=
   (* the cycle: obtain the work file, mark every record it names, and only then remove it *)
   && subseq [SCall "freeList.ToGC"; SCall "os.OpenFile"; SLoop; SCall "flIter.Next"; SEndLoop; SCall "deleteRecords"; SCall "os.Remove"] process
   && Nat.eqb (count_calls "os.Remove" process) 1.
+
+(* ---- C03 / C07: the oldest file of a log is retired header first (Retire.v) ---- *)
+Definition header_before_remove (l : list sev) : bool :=
+  subseq [SCall "writeHeader"; SCall "os.Remove"] l && negb (subseq [SCall "os.Remove"; SCall "writeHeader"] (take_until (SCall "os.Truncate") l)).
+Definition wf_C03 (igc itrunc pgc : list sev) : bool :=
+  (* in the index collector's file loop, in its free-file scan and in the primary collector's file loop the header is rewritten with the
+     advanced first-file number BEFORE the file is removed, never the other way round *)
+  subseq [SCall "writeHeader"; SCall "os.Remove"] itrunc && negb (subseq [SCall "os.Remove"; SCall "writeHeader"] itrunc)
+  && subseq [SCall "writeHeader"; SCall "os.Remove"] pgc && negb (subseq [SCall "os.Remove"; SCall "writeHeader"] pgc)
+  && subseq [SCall "writeHeader"; SCall "os.Remove"; SCall "writeHeader"; SCall "os.Remove"] igc
+  && negb (subseq [SCall "os.Remove"; SCall "writeHeader"; SCall "os.Remove"; SCall "writeHeader"] igc)
+  && Nat.eqb (count_calls "os.Remove" igc) 2 && Nat.eqb (count_calls "writeHeader" igc) 2.
